@@ -80,7 +80,26 @@ func (c *verifCtx) deadlinePassed() bool {
 	return c.parent.deadlinePassed()
 }
 
-func (c *verifCtx) Value(key any) any { return nil }
+// Value lets a context derived from c by the real context package (native runs) find its way back to c.
+func (c *verifCtx) Value(key any) any {
+	if _, ok := key.(verifCtxKey); ok {
+		return c
+	}
+	return nil
+}
+
+type verifCtxKey struct{}
+
+func verifCtxOf(ctx context.Context) *verifCtx {
+	if vc, ok := ctx.(*verifCtx); ok {
+		return vc
+	}
+	if symbolic() {
+		return nil
+	}
+	vc, _ := ctx.Value(verifCtxKey{}).(*verifCtx)
+	return vc
+}
 
 func verifBackground() context.Context { return &verifCtx{tag: "background"} }
 
@@ -124,7 +143,7 @@ func (c *verifClient) answer(ctx context.Context, name string) (*api.SecretValue
 		return nil, &verifCtxErr{err: ctx.Err()}
 	}
 	if c.honoursCancel {
-		if vc, isV := ctx.(*verifCtx); isV && vc.expired() {
+		if vc := verifCtxOf(ctx); vc != nil && vc.expired() {
 			ghostLog("svc.request.cancelled")
 			return nil, &verifCtxErr{err: ctx.Err()}
 		}
@@ -203,10 +222,17 @@ type verifCache struct {
 	mayFail   bool
 	writes    int
 	reads     int
+	// another goroutine's operation that happens while this Write is in progress (if the store's lock lets it)
+	duringWrite func()
 }
 
 func (c *verifCache) Write(data []byte) error {
 	ghostLog("cache.write.call")
+	if c.duringWrite != nil {
+		f := c.duringWrite
+		c.duringWrite = nil
+		concurrently(f)
+	}
 	if c.mayFail {
 		if nondetBool("cache.write.fail") {
 			return verifErrInjected
